@@ -5,6 +5,7 @@ import (
 	"encoding/json"
 	"math/rand"
 	"runtime"
+	"strings"
 	"sync"
 	"time"
 
@@ -55,6 +56,9 @@ func RunFree(sc *Scenario) (events []Event, fatal string) {
 	case "manual":
 		r.manual = make(chan interface{})
 		opts = append(opts, mpb.WithManualRefresh(r.manual))
+		if sc.Cfg.AutoToo {
+			opts = append(opts, mpb.WithAutoRefresh())
+		}
 	}
 	if sc.Cfg.Pop {
 		opts = append(opts, mpb.PopCompletedMode())
@@ -104,7 +108,8 @@ func RunFree(sc *Scenario) (events []Event, fatal string) {
 	select {
 	case <-done:
 	case <-time.After(20 * time.Second):
-		r.rec(Event{"ev": "hang", "kind": "timeout", "pending": r.pendingCalls(), "parked": []string{}, "goroutines": libGoroutines(), "infmt": false})
+		r.rec(Event{"ev": "hang", "kind": "timeout", "pending": r.pendingCalls(), "parked": []string{}, "goroutines": libGoroutines(), "infmt": false,
+			"wpend": strings.Contains(strings.Join(r.pendingCalls(), " "), ":write:")})
 		r.rec(Event{"ev": "end"})
 		exitNow(r.events)
 		return r.events, "hang"
